@@ -50,7 +50,8 @@ class Part:
     """
 
     def __init__(self, name, kind="hyp", strategy=None, check=None, cases=None, n=None,
-                 interp=None, rules=None, steps=None, exhaustive=False, weight_note="", use_target=False):
+                 interp=None, rules=None, steps=None, exhaustive=False, weight_note="", use_target=False, run=None,
+                 max_shards=None):
         self.name = name
         self.kind = kind
         self.strategy = strategy
@@ -63,6 +64,8 @@ class Part:
         self.exhaustive = exhaustive
         self.weight_note = weight_note
         self.use_target = use_target
+        self.run = run              # kind = 'custom': run(pid, part, n, seed, stats, known, found)
+        self.max_shards = max_shards
 
 
 def case_hash(case):
